@@ -93,4 +93,51 @@ theorem bucket_interval_bound (rate burst : Nat) (b : Bucket) (t1 n1 : Nat)
   simp only [Bucket.granted, Bucket.exec]
   omega
 
+/-- the driver's joint meter cannot fire on a history decided by the abstract bucket -/
+theorem meter_sound_from (rate burst : Nat) : ∀ (calls : List (Nat × Nat)) (b : Bucket) (m : Meter),
+    Mono b.ts calls → m.t ≤ b.ts → (m.level - rate * (b.ts - m.t)) + b.tok ≤ burst →
+    ∀ lv ∈ meterLevels rate m (calls.zip (Bucket.run rate burst b calls)), lv ≤ burst := by
+  intro calls
+  induction calls with
+  | nil => intro b m _ _ _ lv h; simp [meterLevels] at h
+  | cons p rest ih =>
+    intro b m hm hmt hJ lv hlv
+    obtain ⟨t, n⟩ := p
+    obtain ⟨h0, hm'⟩ := hm
+    have hts := (allow_tok_le rate burst b t n).2
+    have hd : rate * (t - m.t) = rate * (t - b.ts) + rate * (b.ts - m.t) := by
+      rw [← Nat.mul_add]; congr 1; omega
+    have hcomm : (t - b.ts) * rate = rate * (t - b.ts) := Nat.mul_comm _ _
+    simp only [Bucket.run, List.zip_cons_cons, meterLevels] at hlv
+    by_cases hok : (b.allow rate burst t n).2 = true
+    · simp only [hok, if_true, List.mem_cons] at hlv
+      have hJ' : ((m.add rate t n).level - rate * ((b.allow rate burst t n).1.ts - (m.add rate t n).t))
+          + (b.allow rate burst t n).1.tok ≤ burst := by
+        rw [hts]
+        unfold Bucket.allow at hok ⊢
+        unfold Meter.add
+        by_cases hn : n ≤ b.filled rate burst t
+        · simp only [hn, if_true]
+          have : max t m.t = t := by omega
+          simp only [this, Nat.sub_self, Nat.mul_zero, Nat.sub_zero]
+          unfold Bucket.filled at hn ⊢
+          omega
+        · simp [hn] at hok
+      rcases hlv with rfl | hrest
+      · have : (m.add rate t n).t = t := by unfold Meter.add; simp; omega
+        rw [hts, this] at hJ'
+        simp at hJ'
+        omega
+      · apply ih (b.allow rate burst t n).1 (m.add rate t n) (by rw [hts]; exact hm') _ hJ' lv hrest
+        rw [hts]; unfold Meter.add; simp; omega
+    · simp only [hok, if_false, Bool.false_eq_true] at hlv
+      apply ih (b.allow rate burst t n).1 m (by rw [hts]; exact hm') (by rw [hts]; omega) _ lv hlv
+      rw [hts]
+      unfold Bucket.allow at hok ⊢
+      by_cases hn : n ≤ b.filled rate burst t
+      · simp [hn] at hok
+      · simp only [hn, if_false]
+        unfold Bucket.filled
+        omega
+
 end GoZero.C03
